@@ -12,6 +12,7 @@ import tempfile
 VERIF = os.path.dirname(os.path.dirname(os.path.abspath(__file__)))
 PY = "/venv/bin/python"
 # not caught, each for a stated reason (meta.json/history, DESIGN 10.4)
+ALL = ["C07", "C08", "C09", "C11", "C12", "C13", "C15", "C16", "C17", "C18", "C19"]
 EXPECTED_MISS = {"C15-w2seed1", "C08-w3seed1", "C11-w3seed2", "C17-w3seed2"}
 
 
@@ -33,10 +34,21 @@ def main():
                 print("%-14s PATCH DOES NOT APPLY to the current tree (%s)" % (name, (p.stdout + p.stderr).strip().splitlines()[:1]))
                 bad += 1
                 continue
+            if name.startswith("refactor-"):
+                # behaviour-preserving refactoring: NO check may alarm
+                alarms = {}
+                for c_ in ALL:
+                    r = subprocess.run([PY, os.path.join(VERIF, "check.py"), c_, "--repo", dst, "--no-evidence", "--no-selfcheck"], capture_output=True, text=True)
+                    if r.returncode != 0:
+                        alarms[c_] = (r.returncode, [l.strip().split(" (in")[0] for l in r.stdout.splitlines() if l.strip().startswith(("signature", "HARNESS"))][:2])
+                print("%-14s %s %s" % (name, "ok   no alarm in 11 checks" if not alarms else "UNEXPECTED ALARM", alarms or ""), flush=True)
+                if alarms:
+                    bad += 1
+                continue
             c = subprocess.run([PY, os.path.join(VERIF, "check.py"), prop, "--repo", dst, "--no-evidence"], capture_output=True, text=True)
             sig = [l.strip().split(" (in")[0].replace("signature ", "") for l in c.stdout.splitlines() if l.strip().startswith("signature")][:2]
             ok = (c.returncode == 1) != (name in EXPECTED_MISS)
-            print("%-14s %s rc=%d %s" % (name, "ok  " if ok else "UNEXPECTED", c.returncode, sig))
+            print("%-14s %s rc=%d %s" % (name, "ok  " if ok else "UNEXPECTED", c.returncode, sig), flush=True)
             if not ok:
                 bad += 1
         finally:
